@@ -15,6 +15,7 @@ func init() {
 		Level: "other",
 		Explain: "Value equality, rounding, `never longer` and panic-freedom of Number/Decimal need relational numeric reasoning over (start, dot, end, exponent) that is out of reach of the analyses available here and are NOT decided. Two clauses are shape and are decided on the SSA form: " +
 			"(R08.1) Decimal never introduces an exponent — every constant byte it stores is '0', '1' or '-', its only non-constant stores are increments by one of a digit that was compared with '9', and it calls no other function (in particular not Number and no formatting routine); " +
+			"(R08.3) digits are moved inside the slice only by copy() or by an element-wise loop that walks against the shift; " +
 			"(R08.2) every write of Number and Decimal is an element store or copy() whose destination is the parameter slice itself or a low-bound-only reslice of it (bounds-checked by the language against len(num)); there is no append to it, no high-bounded reslice used as a write target and no unsafe, so a write outside the slice can only panic, never touch the caller's neighbouring bytes.",
 		Run: runC08,
 	})
@@ -27,13 +28,17 @@ func init() {
 	mutant(&Mutant{Name: "c08-number-writes-past-len", Property: "C08", File: "common.go",
 		Old: "\tif neg {\n\t\tstart--\n\t\tnum[start] = '-'\n\t}\n\treturn num[start:end]\n}\n\nfunc UpdateErrorPosition", New: "\tif neg {\n\t\tstart--\n\t\tnum[start] = '-'\n\t}\n\tif end < cap(num) {\n\t\tnum[:cap(num)][end] = 0\n\t}\n\treturn num[start:end]\n}\n\nfunc UpdateErrorPosition",
 		Rule: "R08.2", Construct: "Number"})
+	mutant(&Mutant{Name: "c08-number-smearing-move", Property: "C08", File: "common.go",
+		Old: "\t\t\t\tcopy(num[start+1:], num[start:dot])\n\t\t\t\tstart++\n", New: "\t\t\t\tfor i := start; i < dot; i++ {\n\t\t\t\t\tnum[i+1] = num[i]\n\t\t\t\t}\n\t\t\t\tstart++\n",
+		Rule: "R08.3", Construct: "Number"})
 	mutant(&Mutant{Name: "c08-number-appends", Property: "C08", File: "common.go",
 		Old: "\t\treturn num // exponent overflow\n", New: "\t\treturn append(num[:start], '0') // exponent overflow\n",
 		Rule: "R08.2", Construct: "Number"})
 }
 
 func runC08(c *Ctx) {
-	const r1, r2 = "R08.1", "R08.2"
+	const r1, r2, r3 = "R08.1", "R08.2", "R08.3"
+	c.R.Rule(r3, "digits are relocated inside num either by copy() (overlap-safe by definition) or by an element-wise loop `s[i+k] = s[i]` whose induction variable moves against the shift (k > 0 needs a descending i, k < 0 an ascending i); a loop that shifts in the direction it walks overwrites its own source and smears the first digit over the range (`12.345e3` → `11345`)")
 	c.R.Rule(r1, "SSA of minify.Decimal: every constant byte stored is one of '0' '1' '-'; every other stored byte is <loaded byte> + 1 where the same element was compared with '9' on a dominating branch; the function contains no call other than the builtin len")
 	c.R.Rule(r2, "SSA of minify.Number and minify.Decimal: the address of every byte store, and the destination of every copy(), is derived from the parameter num only through element addressing and reslices without a high/max bound; no append whose first argument derives from num; no conversion through unsafe.Pointer")
 	pk := c.pkg(r1, "")
@@ -144,11 +149,98 @@ func runC08(c *Ctx) {
 			}
 		}
 		c.R.Func("minify." + name)
+		moves, smear := selfMoves(fn)
+		var bad3 []string
+		for _, m := range smear {
+			bad3 = append(bad3, m+" at "+c.P.Pos(fn.Pos()))
+		}
+		c.R.Check(len(bad3) == 0, r3, "minify."+name+"/digits are moved overlap-safely", c.pos(fd), fmt.Sprintf("%d copy() moves (memmove semantics), %d element-wise loop moves in the safe direction", copies, moves), strings.Join(bad3, "; "))
 		c.R.Check(len(bad2) == 0 && stores > 0, r2, "minify."+name+"/writes stay inside the parameter slice", c.pos(fd), fmt.Sprintf("%d element stores, %d copies, all into num / num[a:]", stores, copies), strings.Join(bad2, "; "))
 		if name == "Decimal" {
 			c.R.Check(len(bad1) == 0, r1, "minify.Decimal/no exponent introduced", c.pos(fd), fmt.Sprintf("%d stores: constants in {'0','1','-'} or guarded digit increments; no calls", stores), strings.Join(bad1, "; "))
 		}
 	}
+}
+
+// selfMoves finds stores s[i+c2] = s[i+c1] (same slice value, same index base) whose index base
+// is a loop induction variable, and classifies them by direction. It returns the number of
+// safe moves and a description of each self-overwriting one.
+func selfMoves(fn *ssa.Function) (safe int, smear []string) {
+	split := func(v ssa.Value) (ssa.Value, int64, bool) {
+		if b, ok := v.(*ssa.BinOp); ok && (b.Op == token.ADD || b.Op == token.SUB) {
+			if k, isK := b.Y.(*ssa.Const); isK && k.Value != nil {
+				if b.Op == token.SUB {
+					return b.X, -k.Int64(), true
+				}
+				return b.X, k.Int64(), true
+			}
+			if k, isK := b.X.(*ssa.Const); isK && k.Value != nil && b.Op == token.ADD {
+				return b.Y, k.Int64(), true
+			}
+		}
+		return v, 0, true
+	}
+	// direction of an induction variable: +1 ascending, -1 descending, 0 unknown / not a loop variable
+	dir := func(v ssa.Value) int {
+		phi, ok := v.(*ssa.Phi)
+		if !ok {
+			return 0
+		}
+		d := 0
+		for _, e := range phi.Edges {
+			base, k, _ := split(e)
+			if base == ssa.Value(phi) && k != 0 {
+				if k > 0 {
+					if d < 0 {
+						return 0
+					}
+					d = 1
+				} else {
+					if d > 0 {
+						return 0
+					}
+					d = -1
+				}
+			}
+		}
+		return d
+	}
+	for _, b := range fn.Blocks {
+		for _, ins := range b.Instrs {
+			st, ok := ins.(*ssa.Store)
+			if !ok {
+				continue
+			}
+			dst, ok := st.Addr.(*ssa.IndexAddr)
+			if !ok {
+				continue
+			}
+			ld, ok := st.Val.(*ssa.UnOp)
+			if !ok || ld.Op != token.MUL {
+				continue
+			}
+			src, ok := ld.X.(*ssa.IndexAddr)
+			if !ok || src.X != dst.X {
+				continue
+			}
+			b1, c1, _ := split(src.Index)
+			b2, c2, _ := split(dst.Index)
+			if b1 != b2 || c1 == c2 {
+				continue
+			}
+			d := dir(b1)
+			if d == 0 {
+				continue
+			}
+			k := c2 - c1
+			if k > 0 && d > 0 || k < 0 && d < 0 {
+				smear = append(smear, fmt.Sprintf("loop store %s[i%+d] = %s[i%+d] walks in the direction of the shift and overwrites its own source", dst.X.Name(), c2, src.X.Name(), c1))
+			} else {
+				safe++
+			}
+		}
+	}
+	return
 }
 
 func isByte(t types.Type) bool {
